@@ -168,7 +168,7 @@ CHECKS = [
     chk("C16", "exploration",
         "Every opcode of the independent v1-v8 table x every field of its group x immediate spellings (uint64 in decimal/hex/octal up to "
         "2^64-1, named constants, 19 byte-string spellings: hex, base64/base32 in four syntaxes, quoted strings with spaces, //, escapes; "
-        "labels named like opcodes; lists) x 12 whitespace/comment layouts (incl. comments that end in a colon or contain code): parse_line must yield a supported instruction whose printed "
+        "labels named like opcodes; lists) x 13 whitespace/comment layouts (incl. a trailing carriage return) (incl. comments that end in a colon or contain code): parse_line must yield a supported instruction whose printed "
         "form, read by an independent tokenizer/decoder, denotes the same opcode and immediates (integers by value, byte strings by "
         "decoded value), parses back to the same class and text, and does not depend on layout; comments and the source line are kept; "
         "unknown opcodes (incl. known opcodes with extra characters) stay unsupported verbatim; parse_teal records 1-based line numbers. Every ordered "
